@@ -12,7 +12,7 @@ from tie.framework import g_bool, g_list, g_nat, g_pair, g_str, g_Z, run_impl_pa
 
 PROP = "C06"
 IMPORTS = "From JV Require Import Lib.Base Model.C06Validate Spec.C06Spec Corr.C06Judge."
-RULE = ("seeded random declaration trees (depth <= 3: arguments, dotted groups, dataclass arguments with nested dataclass / "
+RULE = ("seeded random declaration trees (depth <= 3: arguments, dotted groups, dataclass arguments with nested dataclass / Optional[dataclass] / "
         "class / list fields, class-typed arguments with 1-2 subclasses, List[dataclass], optional or required subcommands), "
         "signature-derived fields may carry a leading underscore: a required private field is declared like any other, a private "
         "field with a default exists in the source but is not declared), "
@@ -31,7 +31,8 @@ RULE = ("seeded random declaration trees (depth <= 3: arguments, dotted groups, 
         "change the answer: on the object channel the nested mappings are dict / collections.OrderedDict / collections.defaultdict "
         "instances (drawn per case); 30% of the defaults=True cases on object / string / --cfg build the parser with "
         "default_env=True and run with decoy environment variables APP_<NAME> for the names of nested fields that are not "
-        "top-level arguments. "
+        "top-level arguments; 35% of the mutated cases run on a REUSED parser object that has already parsed (parse_object) its "
+        "valid configuration. "
         "Non-trivial = the configuration was mutated; distinct = distinct (parser, configuration, channel).")
 TRUSTED = [
     "Coq 8.16.1 kernel + vm_compute",
@@ -59,6 +60,10 @@ ASSUMPTIONS = [
     "generated (recreate_branches empties them on the current tree: defect dict-subclass-content-dropped, fix proposed, see notes)",
     "default_env=True is exercised only with decoy variables that are not the variable of any argument of the parser (setting "
     "real arguments through individual environment variables is not modelled)",
+    "an Optional[dataclass] parameter is never given the empty mapping {}: observed on the unchanged tree, {} there is treated like "
+    "an absent value (the lenient pre-pass turns it into an empty Namespace that merge_config drops), so the required fields "
+    "of the dataclass are not asked for and the result is None; noted in notes/C06.md, not modelled",
+    "parse history: at most one earlier parse_object of the parser's valid configuration on the same parser object",
     "dict_kwargs (documented escape for unresolved **kwargs) is treated as declared and opaque; never generated",
     "for parsers with a link history only single mutations are generated (one error at a time): an accepted link removes its "
     "target from the defaults, which changes the key order of the merged namespace and thereby WHICH of two simultaneous errors "
@@ -114,8 +119,11 @@ class Gen:
                 fs.append([name, ["arg", rng.random() < 0.5]])
             elif r < 0.7:
                 fs.append([name, ["data", False, self.class_fields(depth - 1)]])
-            elif r < 0.85:
+            elif r < 0.82:
                 fs.append([name, ["class", rng.random() < 0.4, self.classes(depth - 1)]])
+            elif r < 0.91:
+                # Optional[dataclass] = None: only as a field / parameter that comes from a signature
+                fs.append([name, ["odata", self.class_fields(depth - 1)]])
             else:
                 fs.append([name, ["list", self.class_fields(depth - 1)]])
 
@@ -123,7 +131,7 @@ class Gen:
             fs[0][1] = ["arg", True]
 
         def has_default(d):
-            return (d[0] == "arg" and not d[1]) or (d[0] == "class" and not d[1]) or d[0] in ("list", "hidden")
+            return (d[0] == "arg" and not d[1]) or (d[0] == "class" and not d[1]) or d[0] in ("list", "hidden", "odata")
 
         return [f for f in fs if not has_default(f[1])] + [f for f in fs if has_default(f[1])]
 
@@ -238,6 +246,8 @@ def valid_value(rng, d, full):
         return valid_fields(rng, d[1], full)
     if k == "data":
         return valid_fields(rng, d[2], full)
+    if k == "odata":
+        return valid_fields(rng, d[1], full)
     if k == "class":
         cname, ps = rng.choice(d[2])
         v = {"class_path": "c06gen." + cname}
@@ -290,8 +300,8 @@ def mappings(cfg, fs, path=()):
 def value_mappings(v, d, path):
     k = d[0]
     out = []
-    if k in ("group", "data") and isinstance(v, dict):
-        out += mappings(v, d[1] if k == "group" else d[2], path)
+    if k in ("group", "data", "odata") and isinstance(v, dict):
+        out += mappings(v, d[2] if k == "data" else d[1], path)
     elif k == "class" and isinstance(v, dict):
         out.append((path, ["class_path", "init_args", "dict_kwargs"], {"nonlist": [], "hidden": []}))
         ps = dict((c, f) for c, f in d[2]).get(str(v.get("class_path", "")).split(".")[-1])
@@ -367,7 +377,44 @@ def removable(cfg):
     return out
 
 
+def empty_optional(fs, v):
+    """an Optional[dataclass] position holds {} somewhere below mapping v"""
+    if not isinstance(v, dict):
+        return False
+    for name, d in vis(fs):
+        if name not in v:
+            continue
+        w = v[name]
+        k = d[0]
+        if k == "odata":
+            if w == {} or empty_optional(d[1], w):
+                return True
+        elif k == "group" and empty_optional(d[1], w):
+            return True
+        elif k == "data" and empty_optional(d[2], w):
+            return True
+        elif k == "list" and isinstance(w, list) and any(empty_optional(d[1], x) for x in w):
+            return True
+        elif k == "class" and isinstance(w, dict):
+            ps = dict((c, f) for c, f in d[2]).get(str(w.get("class_path", "")).split(".")[-1])
+            if ps is not None and empty_optional(ps, w.get("init_args")):
+                return True
+    return False
+
+
 def mutants(rng, p, cfg, tier):
+    """list of (label, cfg); configurations that give {} for an Optional[dataclass] are left out (ASSUMPTIONS)"""
+    out = _mutants(rng, p, cfg, tier)
+
+    def bad(c):
+        if empty_optional(p["args"], c):
+            return True
+        return bool(p["sub"]) and any(empty_optional(sargs, c.get(s)) for s, sargs in p["sub"]["map"])
+
+    return [out[0]] + [m for m in out[1:] if not bad(m[1])]
+
+
+def _mutants(rng, p, cfg, tier):
     """list of (label, cfg)"""
     out = [("valid", cfg)]
     maps = top_mappings(cfg, p)
@@ -495,7 +542,7 @@ def nested_field_names(p):
                 walk(d[1], depth + 1)
             elif k == "data":
                 walk(d[2], depth + 1)
-            elif k == "list":
+            elif k in ("list", "odata"):
                 walk(d[1], depth + 1)
             elif k == "class":
                 for _, ps in d[2]:
@@ -516,7 +563,15 @@ def decorate(rng, cases):
     - object channel: the nested mappings are OrderedDict / defaultdict / a user dict subclass instead of dict;
     - the parser is built with default_env=True and the process environment holds decoy variables APP_<NAME> for the names
       of nested fields (none of them the variable of an argument of this parser)"""
+    valid_of = {}
     for c in cases:
+        if c.get("label") == "valid":
+            valid_of[id(c["parser"])] = c["cfg"]
+    for c in cases:
+        # parse history: the SAME parser object has already parsed its valid configuration (parse_object) before it is
+        # given the mutated one; a reused parser must answer like a fresh one
+        if c.get("label") != "valid" and id(c["parser"]) in valid_of and rng.random() < 0.35:
+            c["warm"] = [valid_of[id(c["parser"])]]
         if c["channel"] == "object":
             c["container"] = rng.choice(CONTAINERS)
         if c.get("defaults", True) and c["channel"] in ("object", "string", "argvcfg") and rng.random() < 0.3:
@@ -552,6 +607,8 @@ def g_decl(d):
         return "DClass %s %s" % (g_bool(d[1]), g_list([g_pair(g_str(c), g_fields(fs)) for c, fs in d[2]], "(str * args)"))
     if k == "list":
         return "DList %s" % g_fields(d[1])
+    if k == "odata":
+        return "DOpt %s" % g_fields(d[1])
     raise ValueError(k)
 
 
@@ -624,7 +681,7 @@ def nontrivial_key(case, obs):
     if case.get("label") == "valid":
         return None
     return json.dumps([case["parser"], case["cfg"], case["channel"], case.get("defaults", True), case.get("container"),
-                       bool(case.get("env"))], sort_keys=True)
+                       bool(case.get("env")), bool(case.get("warm"))], sort_keys=True)
 
 
 def category(case, obs):
@@ -634,7 +691,7 @@ def category(case, obs):
 
 def describe(case, obs):
     return {"parser_declarations": case["parser"], "configuration": case["cfg"], "channel": case["channel"], "defaults": case.get("defaults", True),
-            "object_mapping_type": case.get("container", "dict"), "default_env_with_decoy_variables": case.get("decoys") or None,
+            "object_mapping_type": case.get("container", "dict"), "parsed_before_on_the_same_parser": case.get("warm") or None, "default_env_with_decoy_variables": case.get("decoys") or None,
             "mutation": case.get("label"), "real_parser_answer": obs}
 
 
@@ -688,7 +745,7 @@ META = {
                   "than keys of three listed finding classes; guarded form C06_accepted_only_if_all_keys_declared with the judge's "
                   "guard_class; (2) C06_accepted_only_if_required_present: acceptance implies every required key of the closure (own "
                   "arguments, those of the subcommand in force, those of a kept section of another subcommand, required fields of every "
-                  "list item, required parameters of the selected class, recursively) is present and non-null, and C06_required_subcommand_selected: a required subcommand is selected "
+                  "list item, required parameters of the selected class, required fields of a given Optional[dataclass] parameter, recursively) is present and non-null, and C06_required_subcommand_selected: a required subcommand is selected "
                   "and declared; C06_required_present_after_rejected_links / C06_required_present_with_links: the same for parsers whose "
                   "construction included link_arguments attempts (a rejected attempt leaves every required key enforced; an accepted "
                   "link exempts exactly its target); (3) C06_unknown_key_error_only_if_undeclared: an unknown-key error is raised only when the configuration does "
